@@ -314,3 +314,52 @@ def _jsonable(x):
 
 def env_floats(model):
     return {k: (_num(v) if not isinstance(v, bool) else v) for k, v in (model or {}).items()}
+
+
+class NumProver:
+    """Numeric stand-in for the Prover, used by replays: the scenario runs on the real library with floats and
+    every clause is evaluated numerically; failing labels are collected."""
+
+    def __init__(self, rtol=1e-7):
+        self.rtol = rtol
+        self.failed = []
+        self.n = 0
+
+    @staticmethod
+    def _c(x):
+        if isinstance(x, C):
+            return complex(float(x.re.q), float(x.im.q))
+        if isinstance(x, R):
+            return complex(float(x.q))
+        return complex(x)
+
+    def eq(self, label, a, b, kind=None):
+        self.n += 1
+        try:
+            ca, cb = self._c(a), self._c(b)
+        except Exception as e:
+            self.failed.append((label, "not numeric: %s" % e))
+            return
+        if not (abs(ca - cb) <= self.rtol * max(1.0, abs(ca), abs(cb))):
+            self.failed.append((label, "%r vs %r" % (ca, cb)))
+
+    def arrays_eq(self, label, A, B, kind=None):
+        A = np.asarray(A._dense if hasattr(A, "_dense") else (A.toarray() if hasattr(A, "toarray") and not isinstance(A, np.ndarray) else A))
+        B = np.asarray(B._dense if hasattr(B, "_dense") else (B.toarray() if hasattr(B, "toarray") and not isinstance(B, np.ndarray) else B))
+        if A.shape != B.shape:
+            self.n += 1
+            self.failed.append((label + ".shape", "%s vs %s" % (A.shape, B.shape)))
+            return
+        for i in np.ndindex(*A.shape):
+            self.eq("%s[%s]" % (label, ",".join(map(str, i))), A[i], B[i], kind)
+
+    def holds(self, label, cond, kind=None):
+        self.n += 1
+        if isinstance(cond, np.ndarray) and cond.ndim == 0:
+            cond = cond[()]
+        if not bool(cond):
+            self.failed.append((label, "false"))
+
+    def verdict(self, label):
+        hit = [f for f in self.failed if f[0] == label or label.startswith(f[0]) or f[0].startswith(label)]
+        return dict(reproduced=bool(hit), detail=dict(failed=["%s: %s" % f for f in self.failed][:8], clauses=self.n))
